@@ -466,6 +466,7 @@ impl CanonicalRequest {
 //@ hideutf8
 //@ attr #[verifier::rlimit(40)] // five loop queries in a large context: slack so that an unrelated edit elsewhere in the unit cannot tip it over the default limit
 //@ props C08 C05 C19 C13 C17
+//@ consumers C01 C02 C11
 //@ ret r
 //@ replace 1 `header == "host" || header == ":authority"` => `string_eq_str(header, "host") || string_eq_str(header, ":authority")`
 //@ replace 1 `header.to_lowercase()` => `cow_to_lowercase(header)`
@@ -611,6 +612,7 @@ impl CanonicalRequest {
 //@ params auth_params
 //@ hideutf8
 //@ props C08 C01 C13 C16 C04 C17
+//@ consumers C02 C03
 //@ ret r
 //   (Verus rejects `_` as a closure parameter)
 //@ replace 1 `.map_err(|_| {` => `.map_err(|_e| -> (e2: SignatureError) ensures e2 is IncompleteSignature {`
@@ -684,6 +686,7 @@ impl CanonicalRequest {
 //@ params signed_header_requirements
 //@ hideutf8
 //@ props C08 C01 C05 C13 C16 C19 C17
+//@ consumers C02 C03 C04
 //@ ret r
 //@ spec
     requires
